@@ -446,7 +446,7 @@ def reconnect_scenario(ctx, rng, tag):
                     ctx.violation("live-node-missed-frame:remote", f"connection #{cycle + 1}: heartbeat [{state}] left state {node.nmt._state}", case)
                 # outgoing direction
                 net.send_message(0x222, b"\x01\x02")
-                m = peer.recv(5.0)
+                m = peer.recv(5.0) or peer.recv(40.0)         # (generous: only a frame that never arrives is a finding)
                 if m is None or m.arbitration_id != 0x222 or bytes(m.data) != b"\x01\x02":
                     ctx.violation("send-after-reconnect", f"connection #{cycle + 1}: send_message reached the bus as {m}", case)
             finally:
